@@ -305,6 +305,24 @@ theorem never_passed (c : Clock) (mods : Nat → List (Option Nat)) (hJ : J c) (
     exact ⟨(active_exact c hJ s.id).mpr ⟨s, hs, rfl, by simp [eventTime]; omega⟩, by simp [eventTime]; omega⟩
   · rintro ⟨_, h⟩; simp [eventTime] at h; omega
 
+/-- the middle sentence of the property in one statement, for EVERY state in which the main loop emits
+an event (reached from `initialize_simulants` through any schedule): the event includes exactly the
+simulants whose next-event time equals the event time, nobody's next-event time is earlier, the event
+time is the earliest pending next-event time, and the clock update that follows moves the clock exactly
+there. -/
+theorem reachable_event_exact (start stop minStep std : Int) (n : Nat) (mods0 : Nat → List (Option Nat)) (c : Clock)
+    (hm : 0 < minStep) (hstd : 0 ≤ std)
+    (h : Steps (initSims (configure start stop minStep std) n mods0) c) (hrun : c.now < c.stop) :
+    (∀ i, i ∈ active c ↔ ∃ s ∈ c.sims, s.id = i ∧ s.next = eventTime c) ∧
+    (∀ s ∈ c.sims, eventTime c ≤ s.next) ∧
+    (c.sims ≠ [] → minOpt (c.sims.map (·.next)) = some (eventTime c)) ∧
+    (∀ mods, (stepForward c mods).now = eventTime c) := by
+  have hJ := reachable_J start stop minStep std n mods0 c hm hstd h hrun
+  refine ⟨active_exact c hJ, hJ.1, ?_, fun mods => by simp [eventTime]⟩
+  intro hne
+  have := advance_to_earliest c (fun _ => []) hJ hne
+  simpa [eventTime] using this
+
 /-- … and after the update everybody's next-event time is strictly in the future again. -/
 theorem all_ahead_after_update (c : Clock) (mods : Nat → List (Option Nat)) (hc : Cfg c)
     (hland : c.now + c.step < c.stop + c.minStep) :
